@@ -150,6 +150,13 @@ def sample_cases(corpus, alpha, cfg, rng):
 
 # ------------------------------------------------------------------------------------------ harness
 
+def _limit_memory():
+    """a shard may reserve at most 12 GB of address space: code that lost its allocation cap dies (and is
+    reported as a crash on that file) instead of exhausting the machine"""
+    import resource
+    resource.setrlimit(resource.RLIMIT_AS, (12 << 30, 12 << 30))
+
+
 def run_harness(binary, alpha_list, cases, opts, shards=None, timeout=3000):
     """Runs cases in short-lived processes. A process that dies (a panic in a goroutine spawned by the
     engine cannot be recovered) is attributed through its progress file and the rest of its chunk is re-run."""
@@ -173,7 +180,7 @@ def run_harness(binary, alpha_list, cases, opts, shards=None, timeout=3000):
                 env = dict(os.environ)
                 env["TMPDIR"] = d
                 p = subprocess.Popen([binary, "run", "-in", fin, "-out", fout], env=env, stdout=subprocess.PIPE,
-                                     stderr=subprocess.PIPE, text=True)
+                                     stderr=subprocess.PIPE, text=True, preexec_fn=_limit_memory)
                 running.append((p, fout, chunk))
             still = []
             for p, fout, chunk in running:
@@ -192,7 +199,7 @@ def run_harness(binary, alpha_list, cases, opts, shards=None, timeout=3000):
                         cur = open(fout + ".progress").read().split("\n")
                     except OSError:
                         pass
-                    if not cur or rc == 2:
+                    if not cur or rc == 3:
                         raise Infra("vcodec failed rc=%s\n%s" % (rc, se[-3000:]))
                     bad = [c for c in chunk if c["id"] == cur[0]]
                     merged["divergences"].append({"id": cur[0], "kind": "crash", "sub": cur[1] if len(cur) > 1 else "",
